@@ -298,6 +298,62 @@ func c05Verify(c *vf.Ctx, h *c05History, b *c05Built, enc []byte) bool {
 				c.Fail(sigp+" sample count", "same number of samples per track", det(fmt.Sprintf("track %d: got %d want %d (path %d)", tid, len(got), len(exp), path)))
 				return false
 			}
+			// the other read entry points of a decoded fragment: a second GetFullSamples, every sample interval, and the
+			// look-up of every sample by its decode time (single-track fragments with one trun, as these functions require)
+			pos := 0
+			for _, seg := range f.Segments {
+				for _, fr := range seg.Fragments {
+					again, err := fr.GetFullSamples(trex)
+					if err != nil || len(again) > len(got)-pos {
+						c.Fail(sigp+" GetFullSamples second call", "reading the samples a second time gives the same samples", det(fmt.Sprint(err)))
+						return false
+					}
+					for i := range again {
+						if again[i].Sample != got[pos+i].Sample || again[i].DecodeTime != got[pos+i].DecodeTime || !bytes.Equal(again[i].Data, got[pos+i].Data) {
+							c.Fail(sigp+" GetFullSamples second call", "reading the samples a second time gives the same samples", det(fmt.Sprintf("track %d sample %d path %d", tid, pos+i, path)))
+							return false
+						}
+					}
+					n := len(again)
+					if len(fr.Moof.Trafs) == 1 && len(fr.Moof.Traf.Truns) == 1 {
+						for a := 1; a <= n; a++ {
+							for bb := a; bb <= n; bb++ {
+								si, err := fr.GetSampleInterval(trex, uint32(a), uint32(bb))
+								var wantData []byte
+								okS := err == nil && len(si.Samples) == bb-a+1
+								for k := a; okS && k <= bb; k++ {
+									w := exp[pos+k-1]
+									okS = si.Samples[k-a] == w.S
+									wantData = append(wantData, w.Data...)
+								}
+								if !okS || si.FirstDecodeTime != exp[pos+a-1].DecTime || !bytes.Equal(si.Data, wantData) || int(si.Size) != len(wantData) {
+									c.Fail(sigp+" GetSampleInterval", "a sample interval of the decoded fragment holds the samples, bytes and first decode time that were added", det(fmt.Sprintf("track %d fragment samples %d..%d path %d: err %v got %+v", tid, a, bb, path, err, si)))
+									return false
+								}
+							}
+						}
+						for k := 1; k <= n; k++ {
+							tm := exp[pos+k-1].DecTime
+							first := k
+							for first > 1 && exp[pos+first-2].DecTime == tm {
+								first--
+							}
+							var nr uint32
+							var err error
+							if guard(c, sigp+" GetSampleNrFromTime", "looking a sample up by its decode time does not panic", func() interface{} { return det(fmt.Sprintf("track %d time %d path %d", tid, tm, path)) }, func() {
+								nr, err = fr.GetSampleNrFromTime(trex, tm)
+							}) {
+								return false
+							}
+							if err != nil || int(nr) != first {
+								c.Fail(sigp+" GetSampleNrFromTime", "the decode time of a sample finds that sample (the first one with this time)", det(fmt.Sprintf("track %d time %d path %d: got %d err %v want %d", tid, tm, path, nr, err, first)))
+								return false
+							}
+						}
+					}
+					pos += n
+				}
+			}
 			for i := range exp {
 				g, w := got[i], exp[i]
 				field := ""
